@@ -62,6 +62,8 @@ def case_spec(prop, seed, i):
         sp = c13.make_spec(rnd.choice(c13.TYPES), rnd.choice((2, 3)), rnd.choice((2, 3)),
                            rnd.choice(('perm', 'hier', 'hier_all', 'excl')), rnd.random() < .5, False)
         return 'con_struct', sp
+    if not only and .9 < r <= .93:
+        return 'necessary_conflict', gen.gen_necessary_conflict(rnd)
     for name, w, kw in profiles:
         acc += w
         if r < acc:
